@@ -391,7 +391,10 @@ impl LspServer {
     }
 
     pub fn lock_context(&self) -> MutexGuard<LspContext> {
-        self.context.lock().unwrap()
+        // A panic of the debug adapter thread while it held the lock must not take the language server down
+        self.context
+            .lock()
+            .unwrap_or_else(|poisoned| poisoned.into_inner())
     }
 
     pub fn start(mut self) -> MosResult<()> {
@@ -449,7 +452,9 @@ impl LspServer {
         log::trace!("Handling message: {:?}", msg);
 
         let cloned_ctx = self.context.clone();
-        let mut ctx = cloned_ctx.lock().unwrap();
+        let mut ctx = cloned_ctx
+            .lock()
+            .unwrap_or_else(|poisoned| poisoned.into_inner());
 
         match msg {
             Message::Request(req) => match self.request_handlers.get(req.method.as_str()) {
